@@ -16,7 +16,7 @@ from .. import histlib as hl
 from .. import hist12lib as h12
 
 
-def strip(recs, drop=("names",)):
+def strip(recs, drop=("names", "exps")):
     return [dict((k, v) for k, v in r.items() if k not in drop) for r in recs]
 
 
@@ -54,15 +54,16 @@ def trace_phase(ctx, recs):
     trace = strip(recs)
     # a rejected record is reported and validation goes on behind it (bounded number of rounds)
     rest = trace
+    default_op = {"graph": "scale", "addtol": "add-with-tolerance"}
     for _ in range(6):
-        before = len(ctx.violations)
         acc = ctx.trace_check("Trace_HistOps", "Trace_HistOps.cfg", rest,
-                              lambda r: "%s:%s" % (r["k"], r.get("op", "scale")), sample_at=len(rest) // 2)
+                              lambda r: "%s:%s" % (r["k"], r.get("op", default_op.get(r["k"], ""))),
+                              sample_at=len(rest) // 2)
         if acc >= len(rest):
             break
         rest = rest[acc + 1:]
-    trace = [r for r in trace]
-    for kind, fn in (("hist", corrupt_hist), ("graph", corrupt_graph), ("conv", corrupt_conv)):
+    for kind, fn in (("hist", corrupt_hist), ("graph", corrupt_graph), ("conv", corrupt_conv),
+                     ("addtol", lambda r: dict(r, ok=not r["ok"]))):
         sub = [r for r in trace if r["k"] == kind]
         if sub:
             ctx.binding_demo("Trace_HistOps", "Trace_HistOps.cfg", sub, fn, limit=60)
@@ -76,7 +77,9 @@ def run(ctx):
                "compared within a relative 1e-9 ('up to rounding'), CSV text within the printed precision 5e-7")
     ctx.assume("the stored histogram scale is used as documented: scale() returns it unless recompute=True; "
                "'recomputed scale = s' is demanded when the stored scale was current")
-    ctx.assume("add of histograms with different edges must not return a result (any exception is accepted)")
+    ctx.assume("add of histograms with different edges must not return a result (any exception is accepted); 'equal "
+               "edges' is the documented approximate equality (lena.math.isclose with edges_abs_tol=0, edges_rel_tol=1e-9 "
+               "unless given), checked at magnitudes 2^-990 .. 2^990 with perturbations that are exact in floating point")
     pool = concurrent.futures.ThreadPoolExecutor(max_workers=7)
     try:
         # ---- design level (+ exports)
@@ -95,7 +98,7 @@ def run(ctx):
         # ---- code -> spec (all random choices here, in a fixed order)
         m = 6 if ctx.thorough else 1
         recs = (h12.record_histops(rnd, 500 * m, report) + h12.record_graphs(rnd, 500 * m, report)
-                + h12.record_conversions(rnd, 500 * m, report))
+                + h12.record_conversions(rnd, 500 * m, report) + h12.record_addtol(rnd, 600 * m, report))
         f_trace = pool.submit(trace_phase, ctx, recs)
 
         # ---- spec -> code
@@ -124,7 +127,9 @@ def run(ctx):
         pool.shutdown(wait=True)
     return ctx.finish(
         rule="S2C: every single operation (scale / ScaleTo / scale_to / GroupScale, scale(), set_nevents, add with six "
-             "kinds of other operand) on every histogram of HistOps_export and TLC-generated 4-operation histories; every "
+             "kinds of other operand; add with default / explicit edge tolerances and one edge moved by a grid amount or "
+             "by 1/2, 1, 2 tolerances, at 9 magnitudes of the edges) on every histogram of HistOps_export and TLC-generated "
+             "4-operation histories, at 7 magnitudes of edges and contents; every "
              "graph (1..3 coordinates, every ordered choice of 0..3 error fields, 4 name sets) x scale x target and "
              "3-operation histories; every conversion of Convert.tla (3 coordinate modes, all index ranges, both "
              "duplicate_last_bin, functions and ToCSV / HistToGraph elements, int/float contents, list/tuple edges); "
